@@ -189,6 +189,7 @@ class gt_skew_center:
 @contract("nanoemoji.paint._decompose_uniform_transform", props=["C16", "C01", "C13"])
 class decompose_uniform:
     args = {"transform": AFF}
+    timeout_s = 30  # headroom for a fully loaded machine (decided in ~25 s of small steps when idle)
     returns = TupleOf(AFF, AFF)
     # not (numerically) singular: hypot(a,b)*hypot(c,d) is what picosvg tests against epsilon
     requires = [lambda transform: hypot(transform.a, transform.b) * hypot(transform.c, transform.d) > 2 ** -52]
